@@ -11,7 +11,9 @@
   "Unsopported binary operation"), `x++` / `x--`, `=`, `if [else]`, `for [cond] { }`,
   `bondgo.IORead(i)`, `bondgo.IOWrite(o, e)`, `bondgo.Make(bondgo.Input|Output, k)` with k ≥ 1.
 
-  Source forms of the modelled subset (all declarations at the top of `main`):
+  Source forms of the modelled subset (declarations at the top of `main`; memory variables may also
+  be declared inside `if` / `for` bodies, where they may shadow an outer name — the model works on
+  unique variable indices, i.e. on the program after Go's name resolution):
       var iK bondgo.Input / var oK bondgo.Output      (all of them first)
       var vK uintW  (memory variable)  |  var reg_vK uintW  (register variable)
       iK = bondgo.Make(bondgo.Input, g)  /  oK = bondgo.Make(bondgo.Output, g)
@@ -99,6 +101,7 @@ inductive Stmt where
   | ifThen (c : Cond) (t : Stmt)
   | ifElse (c : Cond) (t e : Stmt)
   | loop (c : Option Cond) (body : Stmt)
+  | decl (x : Nat)      -- `var x uintW` inside an `if` / `for` body (a memory variable; x = its unique index)
 deriving Repr, Inhabited
 
 /-- a program: the kinds of the declared variables in declaration order (`true` = `reg_` variable
@@ -138,6 +141,44 @@ def locs (decls : List Bool) : List Loc := locsFrom decls [] 0
 /-- registers held by register variables -/
 def varRegs (ls : List Loc) : List Nat :=
   ls.filterMap fun l => match l with | .reg r => some r | .mem _ => none
+
+/-- Memory cells of the variables declared inside `if` / `for` bodies, in textual order.
+    State: the busy memory cells; result: (locations in order of declaration, busy cells afterwards,
+    cells of the declarations made directly in this statement sequence).
+    The real compiler (`Visit`, `bg.Clean`) releases the variables of a block only when the visitor
+    that owns the block is visited again: for the subset here that happens exactly once, between the
+    `then` and the `else` body of an `if`/`else`; the variables of an `else` body, of an `if` without
+    `else` and of a `for` body are never released. -/
+def blockLocs : Stmt → List Nat → List Loc × List Nat × List Nat
+  | .skip, mems => ([], mems, [])
+  | .seq a b, mems =>
+    let (la, m1, ta) := blockLocs a mems
+    let (lb, m2, tb) := blockLocs b m1
+    (la ++ lb, m2, ta ++ tb)
+  | .decl _, mems => ([.mem (fresh mems)], fresh mems :: mems, [fresh mems])
+  | .assign _ _, mems => ([], mems, [])
+  | .inc _, mems => ([], mems, [])
+  | .dec _, mems => ([], mems, [])
+  | .iowrite _ _, mems => ([], mems, [])
+  | .ifThen _ t, mems =>
+    let (lt, m1, _) := blockLocs t mems
+    (lt, m1, [])
+  | .ifElse _ t e, mems =>
+    let (lt, m1, tt) := blockLocs t mems
+    let (le, m2, _) := blockLocs e (tt.foldl List.erase m1)
+    (lt ++ le, m2, [])
+  | .loop _ b, mems =>
+    let (lb, m1, _) := blockLocs b mems
+    (lb, m1, [])
+
+/-- memory cells of the top-level declarations -/
+def memCells (ls : List Loc) : List Nat :=
+  ls.filterMap fun l => match l with | .mem m => some m | .reg _ => none
+
+/-- locations of all variables of a program: the top-level ones (indices `0 … decls.length-1`),
+    then the block-local ones in textual order -/
+def allLocs (p : Prog) : List Loc :=
+  locs p.decls ++ (blockLocs p.body (memCells (locs p.decls))).1
 
 /-- code of the declarations (`clr r` / `clr t; r2m t m`) -/
 def preambleFrom : List Bool → List Nat → Nat → List Instr
@@ -218,6 +259,10 @@ def compileS (ls : List Loc) : Stmt → Nat → List Nat → Option (List Instr 
     match compileE ls e busy with
     | some (c, r, busy1) => some (c ++ [.r2o r o], busy1)
     | none => none
+  | .decl x, _, busy =>
+    match ls[x]? with
+    | some (.mem m) => some ([.clr (fresh busy), .r2m (fresh busy) m], busy)
+    | _ => none
   | .ifThen c t, base, busy =>
     match compileC ls base c busy with
     | none => none
@@ -253,9 +298,9 @@ def compileS (ls : List Loc) : Stmt → Nat → List Nat → Option (List Instr 
 
 /-- the whole program: declarations, then the body of `main` -/
 def compile (p : Prog) : Option (List Instr) :=
-  let ls := locs p.decls
+  let ls := allLocs p
   let pre := preamble p.decls
-  match compileS ls p.body pre.length (varRegs ls) with
+  match compileS ls p.body pre.length (varRegs (locs p.decls)) with
   | some (c, _) => some (pre ++ c)
   | none => none
 
@@ -366,6 +411,7 @@ def exec (env : Nat → Nat → Nat) (w : Nat) : Nat → Stmt → Src → Src ×
   | _, .assign x e, s =>
     let (v, s1) := evalE env w e s
     ({ s1 with vars := upd s1.vars x v }, true)
+  | _, .decl x, s => ({ s with vars := upd s.vars x 0 }, true)     -- Go zero-initialises at every execution
   | _, .inc x, s => ({ s with vars := upd s.vars x ((s.vars x + 1) % 2 ^ w) }, true)
   | _, .dec x, s => ({ s with vars := upd s.vars x ((s.vars x + (2 ^ w - 1)) % 2 ^ w) }, true)
   | _, .iowrite o e, s =>
